@@ -95,7 +95,7 @@ pub fn meta_config() -> ObjectStoreMetadataConfig {
     ObjectStoreMetadataConfig {
         bucket: BUCKET.into(),
         metadata_prefix: "metadata/".into(),
-        enable_cache: false,
+        enable_cache: true,
         allow_unsafe_overwrite: false,
     }
 }
